@@ -11,7 +11,7 @@ CONSTANTS Blocks,      \* active blocks of the page
 
 NULL == "null"
 Owner == "owner"
-Flags == {"USE","FREEING","NO","NEVER"}
+INSTANCE MiStep      \* Flags and the transition functions of the shared words (also used by the step-level trace specification)
 
 VARIABLES
   xhead, xflag,        \* page.xthread_free = (head, flag)
@@ -54,12 +54,13 @@ RStart(t) == /\ rpc[t] = "idle"
              /\ UNCHANGED <<xhead,xflag,nxt,dhead,free,lfree,used,inFull,pageFreed,holder,ruse,rdf,opc,oops,olist,oblk,otf,oyield,ocall,spur>>
 
 RCas1(t) == /\ rpc[t] = "cas1"
-            /\ LET b == rblk[t] tf == rtf[t] useD == (tf[2] = "USE") IN
+            /\ LET b == rblk[t] tf == rtf[t] useD == Cas1Delayed(tf) new == Cas1New(tf, b) IN
                \/ /\ <<xhead,xflag>> = tf               \* CAS succeeds
+                  /\ xhead' = new[1] /\ xflag' = new[2]
                   /\ IF useD
-                       THEN /\ xflag' = "FREEING" /\ UNCHANGED <<xhead,nxt>>
+                       THEN /\ UNCHANGED nxt
                             /\ rpc' = [rpc EXCEPT ![t] = "ldheap"]
-                       ELSE /\ nxt' = [nxt EXCEPT ![b] = tf[1]] /\ xhead' = b /\ UNCHANGED xflag
+                       ELSE /\ nxt' = [nxt EXCEPT ![b] = tf[1]]
                             /\ rpc' = [rpc EXCEPT ![t] = "idle"]
                   /\ ruse' = [ruse EXCEPT ![t] = useD]
                   /\ UNCHANGED <<rtf,spur>>
@@ -90,7 +91,8 @@ RLd3(t) == /\ rpc[t] = "ld3"
 
 RCas3(t) == /\ rpc[t] = "cas3"
             /\ \/ /\ <<xhead,xflag>> = rtf[t]
-                  /\ xflag' = "NO" /\ rpc' = [rpc EXCEPT ![t] = "idle"] /\ UNCHANGED <<rtf,spur>>
+                  /\ Assert(Cas3Pre(rtf[t]), "only the thread that set FREEING resets it")
+                  /\ xflag' = Cas3New(rtf[t])[2] /\ rpc' = [rpc EXCEPT ![t] = "idle"] /\ UNCHANGED <<rtf,spur>>
                \/ /\ (<<xhead,xflag>> # rtf[t] \/ spur < MaxSpurious)
                   /\ spur' = IF <<xhead,xflag>> = rtf[t] THEN spur+1 ELSE spur
                   /\ rtf' = [rtf EXCEPT ![t] = <<xhead,xflag>>] /\ UNCHANGED <<xflag,rpc>>
@@ -132,7 +134,7 @@ OTakeTf(nextpc) ==
   IF otf[1] = NULL
   THEN /\ opc' = nextpc /\ UNCHANGED <<xhead,xflag,nxt,lfree,used,otf,spur>>
   ELSE \/ /\ <<xhead,xflag>> = otf
-          /\ xhead' = NULL /\ UNCHANGED xflag
+          /\ xhead' = CollectNew(otf)[1] /\ xflag' = CollectNew(otf)[2]
           /\ LET L == ListOf(otf[1]) IN
                /\ nxt' = [nxt EXCEPT ![L[Len(L)]] = lfree]
                /\ lfree' = otf[1]
@@ -179,15 +181,15 @@ ODNext == /\ opc = "dnext"
 
 \* _mi_page_try_use_delayed_free(page, USE, false)
 ODUse == /\ opc = "duse"
-         /\ IF otf[2] = "FREEING"
+         /\ IF UseDelayedWaits(otf)
             THEN IF oyield >= 4
                  THEN /\ opc' = "drepush" /\ otf' = <<dhead, "USE">>    \* give up: re-push (load dhead)
                       /\ UNCHANGED <<xflag,oyield,spur>>
                  ELSE /\ oyield' = oyield + 1 /\ otf' = <<xhead,xflag>> /\ UNCHANGED <<xflag,opc,spur>>  \* yield + reload
-            ELSE IF otf[2] \in {"USE","NEVER"}
+            ELSE IF UseDelayedKeeps(otf, "USE", FALSE)
                  THEN /\ opc' = "dcollect" /\ otf' = <<xhead,xflag>> /\ UNCHANGED <<xflag,oyield,spur>>
-                 ELSE \/ /\ <<xhead,xflag>> = otf /\ xflag' = "USE"
-                         /\ opc' = "dcollect" /\ otf' = <<xhead,"USE">> /\ UNCHANGED <<oyield,spur>>
+                 ELSE \/ /\ <<xhead,xflag>> = otf /\ xflag' = UseDelayedNew(otf, "USE")[2]
+                         /\ opc' = "dcollect" /\ otf' = UseDelayedNew(otf, "USE") /\ UNCHANGED <<oyield,spur>>
                       \/ /\ (<<xhead,xflag>> # otf \/ spur < MaxSpurious)
                          /\ spur' = IF <<xhead,xflag>> = otf THEN spur+1 ELSE spur
                          /\ otf' = <<xhead,xflag>> /\ UNCHANGED <<xflag,opc,oyield>>
